@@ -7,6 +7,7 @@ package main
 
 import (
 	"bufio"
+	"runtime/pprof"
 	"go/types"
 	"encoding/json"
 	"flag"
@@ -138,6 +139,11 @@ func workerMain(args []string) {
 	fs.Parse(args)
 	debug.SetGCPercent(400)
 	ld := load(&c)
+	if pf := os.Getenv("GOSYM_PROF"); pf != "" {
+		f, _ := os.Create(pf)
+		pprof.StartCPUProfile(f)
+		defer pprof.StopCPUProfile()
+	}
 	solver := newSolver(c.Solver, c.TimeoutMs)
 	in := bufio.NewReaderSize(os.Stdin, 1<<20)
 	out := bufio.NewWriter(os.Stdout)
